@@ -127,6 +127,13 @@ class Fn:
         if a.vararg or a.kwarg:
             raise Refused("*args / **kwargs")
         self.params = [x.arg for x in a.posonlyargs + a.args + a.kwonlyargs]
+        owner = self.glob.get(qual.split(".")[0]) if "." in qual else None
+        for part in qual.split(".")[1:-1]:
+            owner = getattr(owner, part, None)
+        self.owner = owner if isinstance(owner, type) else None
+        self.first_param = self.params[0] if self.params else None
+        raw = vars(self.owner).get(self.fn.name) if self.owner is not None else None
+        self.first_kind = "classmethod" if isinstance(raw, classmethod) else "staticmethod" if isinstance(raw, staticmethod) else "function"
         assigned = []
         for n in own_nodes(self.fn):
             tg = []
@@ -209,6 +216,10 @@ class Fn:
     def _fresh(self, v) -> bool:
         if isinstance(v, (ast.List,)):
             return True
+        if isinstance(v, ast.Dict) and not v.keys:
+            return True
+        if isinstance(v, ast.Call) and dotted(v.func) == "dict" and not v.args and not v.keywords:
+            return True
         if isinstance(v, ast.Call) and not v.args and not v.keywords and is_list_map_class(self.glob.get(dotted(v.func) or "")):
             return True
         if isinstance(v, ast.BinOp) and isinstance(v.op, ast.Mult) and isinstance(v.left, ast.List):
@@ -277,6 +288,10 @@ class Fn:
                 return inner if isinstance(op, ast.Is) else f"(.not {inner})"
             if type(op).__name__ in CMP:
                 return f"(.cmp .{CMP[type(op).__name__]} {self.expr(node.left)} {self.expr(rhs)})"
+            if isinstance(op, ast.In):
+                return f"(.contains {self.expr(node.left)} {self.expr(rhs)})"
+            if isinstance(op, ast.NotIn):
+                return f"(.not (.contains {self.expr(node.left)} {self.expr(rhs)}))"
             raise Refused("comparison " + type(op).__name__)
         if isinstance(node, ast.BinOp) and type(node.op).__name__ in BIN:
             return f"(.bin .{BIN[type(node.op).__name__]} {self.expr(node.left)} {self.expr(node.right)})"
@@ -290,6 +305,8 @@ class Fn:
             return self.call(node)
         if isinstance(node, ast.ListComp):
             return self.gen("comp", node)
+        if isinstance(node, ast.Dict) and not node.keys:
+            return "(.lit (.dict .nil))"
         raise Refused(f"expression {type(node).__name__}: {ast.unparse(node)[:60]}")
 
     def gen(self, form, node) -> str:
@@ -327,6 +344,8 @@ class Fn:
                 return f"(.range {lo} {self.expr(args[-1])})"
             if obj is enumerate and len(args) == 1 and not kws:
                 return f"(.enumerate {self.expr(args[0])})"
+            if obj is dict and not args and not kws:
+                return "(.lit (.dict .nil))"
             if obj is tuple and len(args) == 1 and not kws:
                 return f"(.toTup {self.expr(args[0])})"
             if obj is isinstance and len(args) == 2 and not kws and isinstance(args[1], ast.Name) and args[1].id == "int":
@@ -366,6 +385,12 @@ class Fn:
                 return f"(.ctor {lean_str(obj.__name__)} {acc})"
             name = f + ("(" + ",".join(k.arg + "=" for k in kws) + ")" if kws else "")
             return f"(.call {lean_str(name)} {self.spine([self.expr(a) for a in args] + [self.expr(k.value) for k in kws])})"
+        if isinstance(node.func, ast.Attribute) and f is not None and self.owner is not None and len(f.split(".")) == 3 \
+                and f.split(".")[0] == self.first_param and self.first_kind == "classmethod" \
+                and f.split(".")[1] in vars(self.owner) and not callable(vars(self.owner)[f.split(".")[1]]) and not kws:
+            # `cls.<class constant>.<method>(…)` in a classmethod: the external call named after the owning class (no receiver)
+            name = self.owner.__name__ + "." + ".".join(f.split(".")[1:])
+            return f"(.call {lean_str(name)} {self.spine([self.expr(a) for a in args])})"
         if isinstance(node.func, ast.Attribute):
             # a method call on a value: the receiver is the first argument
             name = "." + node.func.attr + ("(" + ",".join(k.arg + "=" for k in kws) + ")" if kws else "")
